@@ -1,7 +1,7 @@
 (* Top-level corollaries about Engine.CheckRelationTuple. *)
 From Coq Require Import List Bool Arith NArith ZArith Lia Permutation.
 From Coq Require Import Strings.Byte.
-From Keto Require Import Base.Bytes Base.ListX Store.Sql Engine.Ast Engine.Engine Engine.RefSem Engine.Soundness Engine.Complete Engine.ErrInv.
+From Keto Require Import Base.Bytes Base.ListX Store.Sql Engine.Ast Engine.Engine Engine.RefSem Engine.Soundness Engine.Complete Engine.CompleteClean Engine.ErrInv.
 Import ListNotations.
 
 Lemma find_ns_in c n x : find_ns c n = Some x -> In x c.
@@ -51,6 +51,23 @@ Proof.
   inversion H; subst o; clear H. cbn in Ha. apply andb_true_iff in Ha as [_ Hm].
   destruct (sound_all cfg strict nid d maxWidth F sub (config_nf_spec cfg Hnf) gas) as (HA & _).
   destruct (HA ctx0 ns obj rel _ false est0 r s E) as [H1 _]. apply H1. destruct (r_m r); try discriminate; reflexivity.
+Qed.
+
+(* ---- exactness with rewrites: a clean run (nothing cut by a limit, nothing skipped as visited) of a '!'-free
+        configuration with unions, intersections and traversals answers exactly the semantics ---- *)
+Theorem check_exact_clean gas cfg nid d maxWidth ns obj rel sub request global o :
+  config_nf cfg = true ->
+  CheckRelationTuple gas cfg false nid d maxWidth (fun _ => false) ns obj rel sub request global = Some o ->
+  o_cut o = false -> o_revisit o = false -> r_err (o_res o) = false ->
+  (r_m (o_res o) = IsMember <-> Holds cfg nid d sub (ns, obj, rel)).
+Proof.
+  intros Hnf H Hc Hr He. pose proof H as H0. unfold CheckRelationTuple in H.
+  destruct (check_allowed _ _ _ _ _ _ _ gas ctx0 ns obj rel _ false est0) as [[r s]|] eqn:E; [|discriminate].
+  inversion H; subst o; clear H. cbn in *. split.
+  - intros Hm. eapply check_sound; [exact Hnf|exact H0|]. cbn. unfold allowed_of. rewrite He, Hm. reflexivity.
+  - intros Hh. destruct (comp_all cfg nid d maxWidth sub (config_nf_spec cfg Hnf) gas) as (HA & _).
+    assert (Hskip : false = true -> direct nid d sub (ns, obj, rel) = false) by discriminate.
+    destruct (HA ctx0 ns obj rel _ false Hskip est0 r s E (conj Hc Hr) He) as [_ Hg]. exact (Hg Hh).
 Qed.
 
 (* ---- an error never comes with IsMember: every configuration ---- *)
